@@ -51,6 +51,7 @@ def jobs(tier, seed):
             for c2 in classes:
                 pairs.append([rng.choice(c1.units()).symbol, rng.choice(c2.units()).symbol])
         pairs += C.sample(rng, allpairs, 1200)
+        pairs += [[x, x] for x in units]              # every unit with itself
     else:
         pairs = allpairs
     out = []
@@ -176,6 +177,12 @@ def pair_ops(E, cfg):
                     E.fail(label + '-no-ref-unit', key='%s:no-ref-unit:%s' % (label, type(e).__name__), info=info)
                 else:
                     E.fail(label + '-no-ref-unit', key='%s:no-ref-unit:returned' % label, info=info)
+        if u is v:
+            # one and the same unit: the dimensions cancel whatever the type
+            _check_result(E, 'same-unit-div-uu', lambda: u / v, {}, Fraction(1), info)
+            _check_result(E, 'same-unit-div-qq', lambda: qa / qb, {}, qa.amount / qb.amount, info)
+            _check_result(E, 'same-unit-div-qu', lambda: qa / v, {}, qa.amount, info)
+            _check_result(E, 'same-unit-div-uq', lambda: u / qb, {}, 1 / qb.amount, info)
         return
     mul_vec, div_vec = _combine(du, dv, 1), _combine(du, dv, -1)
     # the result type DataVolume is quantized: keep one operand concrete there (linearity rule)
